@@ -32,6 +32,7 @@ pub fn answer_kind(kind: &str, lines: &[String], replies: &[String]) -> String {
         "spelling" => oracle_spelling(lines),
         "render" => oracle_render(lines),
         "fuzz" => oracle_fuzz(lines),
+        "listdel" => oracle_listdel(lines),
         _ => "bad-kind".into(),
     }
 }
@@ -267,11 +268,21 @@ pub fn gen_c14<W: Write>(w: &mut W, tier: &str, seed: u64) {
         }
         // keep every line number in place (references point at them): neutralise instead of dropping
         let lines: Vec<String> = p.lines.iter().map(|(n, l)| if l.contains("INPUT") || l.contains("TRON") { format!("{} REM", n) } else { format!("{} {}", n, l) }).collect();
+        // half of the arguments sit at or next to a stored line number (new start = last kept line, ...)
+        let nums: Vec<u32> = p.lines.iter().map(|(n, _)| *n as u32).collect();
+        let mut val = |rng: &mut Rng| -> String {
+            if rng.chance(1, 2) {
+                let k = *rng.pick(&nums) as i64 + rng.below(3) as i64 - 1;
+                k.clamp(0, 65529).to_string()
+            } else {
+                rng.pick(&vals).to_string()
+            }
+        };
         let args = match rng.below(5) {
             0 => String::new(),
-            1 => rng.pick(&vals).to_string(),
-            2 => format!("{},{}", rng.pick(&vals), rng.pick(&vals)),
-            _ => format!("{},{},{}", rng.pick(&vals), rng.pick(&vals), rng.pick(&vals)),
+            1 => val(&mut rng),
+            2 => format!("{},{}", val(&mut rng), val(&mut rng)),
+            _ => format!("{},{},{}", val(&mut rng), val(&mut rng), rng.pick(&vals)),
         };
         let mut v = vec![args];
         v.extend(lines);
@@ -780,7 +791,16 @@ pub fn gen_c11<W: Write>(w: &mut W, tier: &str, seed: u64) {
                     expected.push_str(s);
                     *col += s.chars().count();
                 };
-                match rng.below(7) {
+                match rng.below(8) {
+                    7 => {
+                        // a string carrying a newline: the column is the number of characters after it
+                        let (a, b) = (*rng.pick(&["", "AB", "hello wide world"]), *rng.pick(&["", "C", "xyz"]));
+                        stmt.push_str(&format!("\"{}\"+CHR$(10)+\"{}\"", a, b));
+                        expected.push_str(a);
+                        expected.push('\n');
+                        col = 0;
+                        put(b, &mut col, &mut expected);
+                    }
                     0 | 1 => {
                         let s = *rng.pick(&["A", "hello", "", "xy z", "0123456789ABCDE", "é日"]);
                         stmt.push_str(&format!("\"{}\"", s));
@@ -849,6 +869,13 @@ pub fn gen_c17<W: Write>(w: &mut W, tier: &str, seed: u64) {
     let nums: &[(&str, i64)] = &[("12", 12), (" 12 ", 12), ("+7", 7), ("-12", -12), ("1E2", 100), ("1.5E1", 15), ("2D1", 20), ("&H1F", 31), ("&17", 15), ("12.0", 12), ("", 0), ("  ", 0), ("0", 0), ("32767", 32767), ("-0", 0), ("3!", 3), ("4#", 4), ("5%", 5), (".5E1", 5), ("5.", 5)];
     let bad: &[&str] = &["12abc", "abc", "1 2", "--1", "15x", "&HG", "\"5\"", "1E", "$"];
     let strs: &[(&str, &str)] = &[("éa", "éa"), ("日本 語", "日本 語"), (" ü ", "ü"), ("\"é,ü\"", "é,ü"), ("abc", "abc"), ("  abc  ", "abc"), ("\"a,b\"", "a,b"), ("\" x \"", " x "), ("", ""), ("\"\"", ""), ("hello world", "hello world"), ("\"q\" ", "q")];
+    // a field that is exactly one double quote is ordinary text (nothing to strip)
+    for (stmt, reply, shown) in [("INPUT A$", "\"", "[\"]"), ("INPUT A$", " \" ", "[\"]"), ("INPUT N,A$", "7, \"", " 7 [\"]"), ("INPUT A$", "\"\"", "[]"), ("INPUT A$", "\"\"\"", "[\"]"), ("INPUT A$", "a\"", "[a\"]")] {
+        let print = if stmt.contains("N,") { "PRINT N;\"[\";A$;\"]\"" } else { "PRINT \"[\";A$;\"]\"" };
+        let expected = format!("? {}\n{}\nREADY.\n", reply, shown);
+        let v = vec![hex(&expected), format!("10 {}", stmt), format!("20 {}", print)];
+        emit(w, "C17", "expectrun", &v, &[reply.to_string()]);
+    }
     for _ in 0..n {
         let k = 1 + rng.below(3);
         let mut vars: Vec<String> = vec![];
@@ -1240,6 +1267,60 @@ pub fn gen_c02<W: Write>(w: &mut W, tier: &str, seed: u64) {
             emit(w, "C02", "render", &[txt, tshape(&t)], &[]);
         }
     }
+    // Integer arithmetic at the boundaries of the type, against exact integer arithmetic:
+    // a result that fits stays an Integer, one that does not is promoted (never wrapped, never an error)
+    let mut bset: Vec<i64> = vec![-32768, -32767, -32766, -256, -2, -1, 0, 1, 2, 3, 255, 256, 16384, 32766, 32767];
+    for _ in 0..(if tier == "thorough" { 40 } else { 6 }) {
+        bset.push(rng.below(65536) as i64 - 32768);
+    }
+    let show = |v: i64| if v < 0 { format!("{} ", v) } else { format!(" {} ", v) };
+    let lit = |v: i64| if v < 0 { format!("({})", v) } else { format!("{}", v) };
+    for &a in &bset {
+        for &b in &bset {
+            // None = ?OVERFLOW ("All Integer arithmetic is always checked for overflows")
+            let fit = |v: i64| if (-32768..=32767).contains(&v) { Some(v) } else { None };
+            let neg = |v: Option<i64>| v.and_then(|x| fit(-x));
+            let mut cases: Vec<(String, Option<i64>)> = vec![
+                ("A%+B%".into(), fit(a + b)),
+                ("A%-B%".into(), fit(a - b)),
+                ("-A%-B%".into(), neg(Some(a)).and_then(|x| fit(x - b))),
+                ("A%-(-B%)".into(), neg(Some(b)).and_then(|x| fit(a - x))),
+                ("A%+(-B%)".into(), neg(Some(b)).and_then(|x| fit(a + x))),
+                ("(A%=B%)".into(), Some(-((a == b) as i64))),
+                ("(A%<>B%)".into(), Some(-((a != b) as i64))),
+                ("(A%<B%)".into(), Some(-((a < b) as i64))),
+                ("(A%<=B%)".into(), Some(-((a <= b) as i64))),
+                ("(A%>B%)".into(), Some(-((a > b) as i64))),
+                ("(A%>=B%)".into(), Some(-((a >= b) as i64))),
+                ("A% AND B%".into(), Some(a & b)),
+                ("A% OR B%".into(), Some(a | b)),
+                ("A% XOR B%".into(), Some(a ^ b)),
+                ("A% IMP B%".into(), Some(!a | b)),
+                ("A% EQV B%".into(), Some(!(a ^ b))),
+                ("NOT A%".into(), Some(!a)),
+                ("-A%".into(), fit(-a)),
+                ("A%*B%".into(), fit(a * b)),
+            ];
+            // literals: 32768 does not fit an Integer, so (-32768) is a Single and the arithmetic is done in Single
+            let single = a == -32768 || b == -32768;
+            cases.push((format!("{}+{}", lit(a), lit(b)), if single { Some(a + b) } else { fit(a + b) }));
+            cases.push((format!("{}-{}", lit(a), lit(b)), if single { Some(a - b) } else { fit(a - b) }));
+            if b != 0 {
+                cases.push(("A%\\B%".into(), fit(a / b))); // truncating
+                if a % b == 0 && a != 0 {
+                    cases.push(("A%/B%".into(), Some(a / b))); // computed in Single
+                }
+            }
+            for (e, want) in cases {
+                let line = format!("A%={}:B%={}:PRINT {}", a, b, e);
+                let expected = match want {
+                    Some(v) => format!("{}\nREADY.\n", show(v)),
+                    None => "?OVERFLOW\nREADY.\n".to_string(),
+                };
+                emit(w, "C02", "expectdirect", &[hex(&expected), line], &[]);
+            }
+        }
+    }
     let n = if tier == "thorough" { 200_000 } else { 5_000 };
     for i in 0..n {
         let d = 1 + rng.below(if i % 20 == 0 { 7 } else { 4 });
@@ -1268,6 +1349,11 @@ fn oracle_fuzz(lines: &[String]) -> String {
         }
         if l == "@DROP" {
             snaps.pop();
+            continue;
+        }
+        if let Some(rep) = l.strip_prefix("@REPLY ") {
+            // queued answer for the next INPUT (the default answer is "1")
+            r.replies.push(rep.to_string());
             continue;
         }
         if let Some(k) = l.strip_prefix("@INT ") {
@@ -1327,6 +1413,18 @@ pub fn gen_c03<W: Write>(w: &mut W, tier: &str, seed: u64) {
         let v: Vec<String> = c.iter().map(|s| s.to_string()).collect();
         emit(w, "C03", "fuzz", &v, &[]);
     }
+    // INPUT with hostile replies: quotes, commas, blanks, nothing, non-ASCII, over-long
+    let nasty = ["\"", "\"\"", " \" ", ",", "\",", "7, \"", "", " ", "\"\"\"", "\"a", "a\"", "é,\"", "\u{e9}a,b", "\",\"", ",,,,", "1,2,3,4,5,6", "1e999", "&H", "&HFFFFF", "-", "+", ".", "1e", "\u{a0}", "\t"];
+    for stmt in ["INPUT A$", "INPUT N", "INPUT N,A$", "INPUT A$,N", "INPUT A$,B$,C$", "INPUT \"P\";A$", "INPUT ,A$,N%", "INPUT Q(N),N,A$(1)"] {
+        for rep in nasty {
+            let v: Vec<String> = vec![format!("@REPLY {}", rep), "@REPLY 1,x,2".to_string(), "@REPLY 1".to_string(), format!("10 {}:PRINT \"OK\"", stmt), "RUN".to_string(), "PRINT 1".to_string()];
+            emit(w, "C03", "fuzz", &v, &[]);
+            let v2: Vec<String> = vec![format!("@REPLY {}", rep), "@REPLY x".to_string(), stmt.to_string(), "PRINT 2".to_string()];
+            emit(w, "C03", "fuzz", &v2, &[]);
+        }
+    }
+    let long_reply = "x,".repeat(600);
+    emit(w, "C03", "fuzz", &[format!("@REPLY {}", long_reply), "10 INPUT A$,B$".to_string(), "RUN".to_string()], &[]);
     let deep = [format!("X={}1{}", "(".repeat(300), ")".repeat(300)), format!("X={}1", "-".repeat(400)), format!("{}PRINT 1", "IF 1 THEN ".repeat(100)), "X=".to_string() + &"1+".repeat(500) + "1", "é".repeat(600), "\"".repeat(1000), "A".repeat(1025)];
     for d in deep {
         emit(w, "C03", "fuzz", &[d], &[]);
@@ -1358,10 +1456,185 @@ pub fn gen_c03<W: Write>(w: &mut W, tier: &str, seed: u64) {
                 7 => v.push("@SNAP".into()),
                 8 => v.push("@DROP".into()),
                 9 => v.push(format!("@INT {}", rng.below(60))),
+                10 if rng.chance(1, 3) => {
+                    v.push(format!("@REPLY {}", rng.pick(&nasty)));
+                    v.push(rng.pick(&["INPUT A$", "INPUT N,A$", "10 INPUT A$,B$", "INPUT ,\"x\";N%"]).to_string());
+                }
                 10 => v.push(rng.pick(&["RUN", "CONT", "LIST", "NEW", "CLEAR", "RENUM", "RENUM 5,1,1", "DELETE 1-", "LIST -5", "RETURN", "NEXT"]).to_string()),
                 _ => v.push(format!("{}", rng.below(70000))),
             }
         }
         emit(w, "C03", "fuzz", &v, &[]);
+    }
+}
+
+// ---------------------------------------------------------------------------------------------
+// C15: the program store is an ordered map; LIST / DELETE ranges through the whole interpreter
+
+/// `[a][-[b]]` after the keyword: (a, dash, b), numbers wider than u64 never generated
+fn parse_range(rest: &str) -> Option<(Option<u64>, bool, Option<u64>)> {
+    let rest = rest.trim();
+    let (l, dash, r) = match rest.find('-') {
+        Some(i) => (&rest[..i], true, &rest[i + 1..]),
+        None => (rest, false, ""),
+    };
+    let num = |t: &str| -> Option<Option<u64>> {
+        let t = t.trim();
+        if t.is_empty() {
+            Some(None)
+        } else {
+            t.parse::<u64>().ok().map(Some)
+        }
+    };
+    Some((num(l)?, dash, num(r)?))
+}
+
+/// The session is entered line by line next to a reference `BTreeMap`; after every line the
+/// interpreter's listing must equal the reference, LIST must print exactly the lines in the
+/// inclusive range in ascending order, and a rejected command must print an error and change nothing.
+fn oracle_listdel(lines: &[String]) -> String {
+    use std::collections::BTreeMap;
+    let mut r = Run::new();
+    let mut m: BTreeMap<u64, String> = BTreeMap::new();
+    for (i, l) in lines.iter().enumerate() {
+        r.line(l);
+        let out = r.take();
+        let t = l.trim_start();
+        if t.starts_with(|c: char| c.is_ascii_digit()) {
+            let digits: String = t.chars().take_while(|c| c.is_ascii_digit()).collect();
+            let n: u64 = digits.parse().unwrap_or(u64::MAX);
+            let rest = t[digits.len()..].trim();
+            if n <= 65529 {
+                if rest.is_empty() {
+                    m.remove(&n);
+                } else {
+                    m.insert(n, format!("{} {}", n, rest));
+                }
+                if !out.is_empty() {
+                    return fail(format!("step {} {:?}: entering a program line printed {:?}", i, l, out));
+                }
+            }
+            // a number above 65529 is not a line number: whatever is reported, the store is unchanged
+        } else if let Some((kw, rest)) = ["LIST", "DELETE"].iter().find_map(|k| t.strip_prefix(k).map(|x| (*k, x))) {
+            let Some((a, dash, b)) = parse_range(rest) else { return "ok".into() };
+            let too_big = a.map_or(false, |x| x > 65529) || b.map_or(false, |x| x > 65529);
+            let lo = a.unwrap_or(0);
+            let hi = if dash { b.unwrap_or(65529) } else { a.unwrap_or(65529) };
+            let bare = a.is_none() && !dash;
+            let rejected = too_big || lo > hi || (kw == "DELETE" && bare);
+            if rejected {
+                if !out.starts_with('?') || !out.ends_with("READY.\n") || out.lines().count() != 2 {
+                    return fail(format!("step {} {:?}: must be rejected with an error and nothing else, printed {:?}", i, l, out));
+                }
+            } else if kw == "LIST" {
+                let mut want = String::new();
+                for (_, text) in m.range(lo..=hi) {
+                    want.push_str(text);
+                    want.push('\n');
+                }
+                want.push_str("READY.\n");
+                if out != want {
+                    return fail(format!("step {} {:?}: listed {:?}, the lines in {}..={} are {:?}", i, l, out, lo, hi, want));
+                }
+            } else {
+                let keys: Vec<u64> = m.range(lo..=hi).map(|(k, _)| *k).collect();
+                for k in keys {
+                    m.remove(&k);
+                }
+                if out != "READY.\n" {
+                    return fail(format!("step {} {:?}: DELETE of a legal range printed {:?}", i, l, out));
+                }
+            }
+        } else {
+            return "bad-step".into();
+        }
+        let have = r.listing_text();
+        let want: Vec<String> = m.values().cloned().collect();
+        if have != want {
+            return fail(format!("step {} {:?}: the store holds {:?}, the history says {:?}", i, l, have, want));
+        }
+    }
+    "ok".into()
+}
+
+pub fn gen_c15<W: Write>(w: &mut W, tier: &str, seed: u64) {
+    let mut rng = Rng::new(seed ^ 0xC15);
+    let forms = |kw: &str, a: u64, b: u64, k: usize| -> String {
+        match k {
+            0 => format!("{} {}", kw, a),
+            1 => format!("{} {}-", kw, a),
+            2 => format!("{} -{}", kw, a),
+            3 => format!("{} {}-{}", kw, a, b),
+            4 => format!("{} {} - {}", kw, a, b),
+            _ => kw.to_string(),
+        }
+    };
+    // exhaustive part: a universe of 5 stored numbers, every form with every endpoint of a probe set
+    let universe: [u64; 5] = [0, 1, 10, 65528, 65529];
+    let probes: [u64; 9] = [0, 1, 5, 10, 11, 65528, 65529, 65530, 99999];
+    for mask in [0b11111usize, 0b01110, 0b10001, 0b00001, 0b10000, 0] {
+        let setup: Vec<String> = universe.iter().enumerate().filter(|(i, _)| mask >> i & 1 == 1).map(|(_, n)| format!("{} PRINT {}", n, n)).collect();
+        for kw in ["LIST", "DELETE"] {
+            for &a in &probes {
+                for k in 0..3 {
+                    let mut v = setup.clone();
+                    v.push(forms(kw, a, 0, k));
+                    v.push("LIST".to_string());
+                    emit(w, "C15", "listdel", &v, &[]);
+                }
+                for &b in &probes {
+                    let mut v = setup.clone();
+                    v.push(forms(kw, a, b, 3));
+                    v.push("LIST".to_string());
+                    emit(w, "C15", "listdel", &v, &[]);
+                }
+            }
+            let mut v = setup.clone();
+            v.push(kw.to_string());
+            v.push("LIST".to_string());
+            emit(w, "C15", "listdel", &v, &[]);
+        }
+    }
+    // random histories over the whole number range
+    let n = if tier == "thorough" { 30_000 } else { 1_000 };
+    for _ in 0..n {
+        let small = rng.chance(1, 2);
+        let mut pick = |rng: &mut Rng| -> u64 {
+            if small {
+                *rng.pick(&[0u64, 1, 2, 3, 10, 20, 30, 65528, 65529])
+            } else if rng.chance(1, 12) {
+                65530 + rng.below(10) as u64
+            } else {
+                rng.below(65530) as u64
+            }
+        };
+        let len = 2 + rng.below(14);
+        let mut v: Vec<String> = vec![];
+        let mut used: Vec<u64> = vec![];
+        for _ in 0..len {
+            match rng.below(10) {
+                0..=3 => {
+                    let k = pick(&mut rng);
+                    used.push(k);
+                    v.push(format!("{} {}", k, rng.pick(&["PRINT 1", "REM x", "A=A+1", "GOTO 10", "PRINT \"a b\";X"])));
+                }
+                4 => {
+                    let k = if rng.chance(2, 3) && !used.is_empty() { *rng.pick(&used) } else { pick(&mut rng) };
+                    v.push(format!("{}", k));
+                }
+                5 | 6 => {
+                    let (a, b) = (pick(&mut rng), pick(&mut rng));
+                    let a = if rng.chance(1, 2) && !used.is_empty() { *rng.pick(&used) } else { a };
+                    v.push(forms("LIST", a, b, rng.below(6)));
+                }
+                _ => {
+                    let (a, b) = (pick(&mut rng), pick(&mut rng));
+                    let a = if rng.chance(1, 2) && !used.is_empty() { *rng.pick(&used) } else { a };
+                    v.push(forms("DELETE", a, b, rng.below(6)));
+                }
+            }
+        }
+        v.push("LIST".to_string());
+        emit(w, "C15", "listdel", &v, &[]);
     }
 }
